@@ -59,6 +59,17 @@ def cycle (al : Alloc) (a : Acc) (lost : Int) : Acc × Int :=
   let actual := r.1.full + r.2 - lost
   (cycleEnd r.1 actual, actual)
 
+/-- the share callback of partial miners: one-cycle jobs are called off once the cycle's average rate has reached the
+contracted rate plus the shortfall carried so far — `offered` is what full and partial miners would deliver if left alone -/
+def cutoff (a : Acc) (offered : Int) : Int := min offered (max (a.H + a.gU) a.full)
+
+/-- a cycle in which the partial miners deliver as much as they can (`spare` on top of what was arranged) until the
+callback calls them off -/
+def cycleCut (al : Alloc) (a : Acc) (spare : Int) : Acc × Int :=
+  let r := adjust al a
+  let actual := cutoff r.1 (r.1.full + r.2 + spare)
+  (cycleEnd r.1 actual, actual)
+
 /-- an allocator that can always arrange exactly what is asked with one-cycle jobs -/
 def ideal : Alloc := { addFull := fun _ => 0, addPartial := fun r => r, shed := fun _ => 0 }
 
